@@ -436,7 +436,7 @@ func (g *dynCompiler) call(v *ast.CallExpr) string {
 				}
 			}
 			return g.fail("clause uses called on a function or method (not observable without instrumentation)")
-		case "isfresh", "separate", "sameroot", "samebacking", "samearray", "alias", "lastresult", "lastresultb", "lastarg", "callarg", "ufi", "uf", "ufb", "calledinloop", "callindex", "in", "forall2", "trig", "atrig":
+		case "isfresh", "separate", "sameroot", "samebacking", "samearray", "alias", "lastresult", "lastresultb", "lastarg", "callarg", "aftercall", "ufi", "uf", "ufb", "calledinloop", "callindex", "in", "forall2", "trig", "atrig":
 			return g.fail("clause uses " + id.Name + " (not executable)")
 		}
 		if sf := findSpecIn(g.eng, g.pc, id.Name, ""); sf != nil {
